@@ -36,11 +36,13 @@ PROPERTIES = {
         "explanation": "PARTIAL (arena half of incremental update): new ids are always the arena length (never reused); "
                        "delete_branch tombstones exactly the old subtree and blanks exactly its lines; update_key leaves every slot "
                        "outside the old version of the edited note untouched, and the state handed to the parser is again a forest "
-                       "in which the old version is unreachable. Not covered: RefIndex, title cache, nodes_map, search paths.",
+                       "in which the old version is unreachable; index_node (re-indexing of the new root) reaches every node of the new subtree "
+                       "(failed on the original tree for nodes after a table: fixed in /repo aa1f5f1). Not covered: RefIndex::merge, "
+                       "tombstone filtering by the index readers, title cache, nodes_map, search paths.",
         "assumptions": A_COMMON + [
             "A6 assumed contract of Graph::from_markdown (external): it only appends to the arena",
             "A6 Key's derived Hash/Eq obey vstd's HashMap key model",
-            "not covered: index merge/tombstone filtering (HashMap::entry + &mut-capturing closures), keys_to_ref_text, nodes_map, Database",
+            "not covered: RefIndex::merge and the readers' tombstone filtering, keys_to_ref_text, nodes_map, Database",
         ],
     },
     "C03": {
@@ -81,6 +83,22 @@ PROPERTIES = {
             "T8 `for (i, &x) in V.iter().enumerate()` -> `for i in 0..V.len() { let x = V[i]; .. }` preserves meaning (cross-checked by the Kani harnesses on the unmodified function for n <= 12)",
             "A7 the reader passes a well-formed line table (line_starts is outside the verified set; known to be wrong for CRLF input)",
             "A9 Kani: table length fixed per harness (1..6 quick, up to 12 thorough)",
+        ],
+    },
+    "C05": {
+        "units": ["arena_forest"], "kani": [], "kani_cex": [],
+        "explanation": "PARTIAL (the index walk): RefIndex::index_node, for arenas of any size, records EXACTLY the links of the "
+                       "subtree it is started on: every Reference node reachable through child/next links (of every node kind) under "
+                       "its key, every Section/Leaf under each key its line links to, nothing already recorded is lost, nothing else is "
+                       "added. This contract failed on the original tree (Table nodes did not follow `next`): fixed in /repo aa1f5f1. "
+                       "Not covered: which keys a line links to (Line::ref_keys / GraphInline::ref_keys are string code: an uninterpreted "
+                       "function here), key resolution relative to the linking note, is_ref_url, RefIndex::merge and the readers' tombstone "
+                       "filter (closures / HashSet::extend), table cells (never indexed), the LSP handlers.",
+        "assumptions": A_COMMON + [
+            "A6 Key's derived Hash/Eq obey vstd's HashMap key model; trusted spec of hash_map::Entry::or_insert_with (mirrors vstd's or_insert)",
+            "T8b `for key in <owned Vec>` is verified as an index loop over borrowed elements",
+            "Line::ref_keys is external: its result is an uninterpreted function of the line",
+            "callers pass a graph whose arena is a forest with line ids in range (established by the C20 obligations under A7)",
         ],
     },
 }
